@@ -12,8 +12,8 @@ use vcore::ev::{catch, h64, run_prop, Check, Ctx, Failure};
 
 #[derive(Clone, Copy, Debug, PartialEq, Eq, Hash)]
 pub struct Arrival {
-    pub frame: u8,
-    pub rx: u8,
+    pub frame: u16,
+    pub rx: u16,
     /// arrival time on a millisecond grid
     pub ms: u64,
 }
@@ -82,14 +82,21 @@ fn run_real(hist: &[Arrival], window: u32, frames: &[Vec<u8>], caps: Caps) -> Re
 /// Reference model: open groups kept in a Vec; an arrival joins the open group of its frame
 /// (or opens one), then every group whose expiry <= now closes, in (expiry, frame) order.
 pub fn model(hist: &[Arrival], window: u32, frames: &[Vec<u8>], decodable: &[bool]) -> (Vec<Record>, Vec<u64>) {
+    let (a, b, _) = model_full(hist, window, frames, decodable);
+    (a, b)
+}
+
+/// the model, and the largest number of groups that were open at once
+pub fn model_full(hist: &[Arrival], window: u32, frames: &[Vec<u8>], decodable: &[bool]) -> (Vec<Record>, Vec<u64>, usize) {
     struct G {
-        frame: u8,
+        frame: u16,
         expiry: u128,
         members: Vec<u64>,
         first_ts: f64,
     }
     let mut open: Vec<G> = vec![];
     let mut out = vec![];
+    let mut max_open = 0usize;
     for (i, a) in hist.iter().enumerate() {
         let now = (ts_of(a.ms) * 1e3) as u128;
         if let Some(g) = open.iter_mut().find(|g| g.frame == a.frame) {
@@ -97,6 +104,7 @@ pub fn model(hist: &[Arrival], window: u32, frames: &[Vec<u8>], decodable: &[boo
         } else {
             open.push(G { frame: a.frame, expiry: now + window as u128, members: vec![i as u64], first_ts: ts_of(a.ms) });
         }
+        max_open = max_open.max(open.len());
         loop {
             // smallest (expiry, frame bytes) among the expired groups
             let mut best: Option<usize> = None;
@@ -123,7 +131,7 @@ pub fn model(hist: &[Arrival], window: u32, frames: &[Vec<u8>], decodable: &[boo
         }
     }
     let pending: Vec<u64> = open.iter().flat_map(|g| g.members.clone()).collect();
-    (out, pending)
+    (out, pending, max_open)
 }
 
 pub fn check_hist(ctx: &Ctx, hist: &[Arrival], window: u32, frames: &[Vec<u8>], decodable: &[bool]) -> Check {
@@ -143,11 +151,14 @@ pub fn check_hist_caps(ctx: &Ctx, hist: &[Arrival], window: u32, frames: &[Vec<u
     let got = run_real(hist, window, frames, caps).map_err(|p| fail("panic", p))?;
     // ---- invariants that need no model
     let mut seen = std::collections::BTreeSet::new();
+    // large pools (scale strata): frame -> index through a map
+    let index: std::collections::HashMap<&[u8], usize> = if frames.len() > 64 { frames.iter().enumerate().map(|(i, f)| (f.as_slice(), i)).collect() } else { Default::default() };
+    let position = |fr: &Vec<u8>| if frames.len() > 64 { index.get(fr.as_slice()).copied() } else { frames.iter().position(|f| f == fr) };
     for r in &got {
         if r.receptions.contains(&(u64::MAX - 1)) {
             return Err(fail("emitted-undecoded-record", format!("{}", hex::encode(&r.frame))));
         }
-        let Some(fi) = frames.iter().position(|f| *f == r.frame) else { return Err(fail("invented-frame", hex::encode(&r.frame))) };
+        let Some(fi) = position(&r.frame) else { return Err(fail("invented-frame", hex::encode(&r.frame))) };
         if !decodable[fi] {
             return Err(fail("undecodable-frame-emitted", hex::encode(&r.frame)));
         }
@@ -172,8 +183,9 @@ pub fn check_hist_caps(ctx: &Ctx, hist: &[Arrival], window: u32, frames: &[Vec<u
         }
     }
     // ---- the executable reference model
-    let (want, pending) = model(hist, window, frames, decodable);
+    let (want, pending, max_open) = model_full(hist, window, frames, decodable);
     // every decodable reception: in exactly one record, or still pending
+    let pending: std::collections::BTreeSet<u64> = pending.into_iter().collect();
     for (i, a) in hist.iter().enumerate() {
         let i = i as u64;
         if decodable[a.frame as usize] && !seen.contains(&i) && !pending.contains(&i) {
@@ -192,15 +204,41 @@ pub fn check_hist_caps(ctx: &Ctx, hist: &[Arrival], window: u32, frames: &[Vec<u
     let monotone = hist.windows(2).all(|w| w[0].ms <= w[1].ms);
     if monotone {
         let first_ms = |r: &Record| hist[r.receptions[0] as usize].ms;
-        for (i, a) in got.iter().enumerate() {
-            for b in got.iter().skip(i + 1) {
-                if a.frame == b.frame && first_ms(b).abs_diff(first_ms(a)) < window as u64 {
-                    return Err(fail("same-frame-records-closer-than-window", format!("{} ms and {} ms, window {window}", first_ms(a), first_ms(b))));
-                }
+        let mut per_frame: std::collections::HashMap<&[u8], Vec<u64>> = Default::default();
+        for r in &got {
+            per_frame.entry(r.frame.as_slice()).or_default().push(first_ms(r));
+        }
+        for v in per_frame.values_mut() {
+            v.sort();
+            if let Some(w) = v.windows(2).find(|w| w[1] - w[0] < window as u64) {
+                return Err(fail("same-frame-records-closer-than-window", format!("{} ms and {} ms, window {window}", w[0], w[1])));
             }
         }
         if got.windows(2).any(|w| first_ms(&w[0]) > first_ms(&w[1])) {
             return Err(fail("output-not-in-order-of-first-arrival", format!("{:?}", got.iter().map(first_ms).collect::<Vec<_>>())));
+        }
+    }
+    if hist.len() >= 300 {
+        if max_open > 255 {
+            ctx.class("long history: > 255 groups open at once");
+        }
+        if max_open > 1023 {
+            ctx.class("long history: > 1023 groups open at once");
+        }
+        if max_open > 4095 {
+            ctx.class("long history: > 4095 groups open at once");
+        }
+        if got.iter().any(|r| r.receptions.len() > 255) {
+            ctx.class("long history: a record with > 255 receptions");
+        }
+        if got.len() > 255 {
+            ctx.class("long history: > 255 records");
+        }
+        if got.len() > 65_535 {
+            ctx.class("long history: > 65 535 records");
+        }
+        if hist.iter().map(|a| a.rx).max().unwrap_or(0) > 255 {
+            ctx.class("long history: > 255 receivers");
         }
     }
     let merged = got.iter().any(|r| r.receptions.len() >= 2);
@@ -211,7 +249,7 @@ pub fn check_hist_caps(ctx: &Ctx, hist: &[Arrival], window: u32, frames: &[Vec<u
     Ok(())
 }
 
-fn arrival(nframes: u8, nrx: u8, grid: Vec<u64>) -> impl Strategy<Value = Arrival> {
+fn arrival(nframes: u16, nrx: u16, grid: Vec<u64>) -> impl Strategy<Value = Arrival> {
     (0..nframes, 0..nrx, proptest::sample::select(grid)).prop_map(|(frame, rx, ms)| Arrival { frame, rx, ms })
 }
 
@@ -225,8 +263,8 @@ pub fn run(ctx: &Ctx) {
     let maxlen = ctx.tier.pick(5usize, 6usize);
     let grid = [1000u64, 1001, 1002, 1400];
     let mut alphabet: Vec<Arrival> = vec![];
-    for f in [0u8, 3] {
-        for rx in 0..2u8 {
+    for f in [0u16, 3] {
+        for rx in 0..2u16 {
             for ms in grid {
                 alphabet.push(Arrival { frame: f, rx, ms });
             }
@@ -260,7 +298,7 @@ pub fn run(ctx: &Ctx) {
     }
     // the second exhaustive alphabet: two decodable frames
     {
-        let alphabet: Vec<Arrival> = [1u8, 2].iter().flat_map(|f| (0..2u8).flat_map(move |rx| [1000u64, 1001, 1450, 5000].into_iter().map(move |ms| Arrival { frame: *f, rx, ms }))).collect();
+        let alphabet: Vec<Arrival> = [1u16, 2].iter().flat_map(|f| (0..2u16).flat_map(move |rx| [1000u64, 1001, 1450, 5000].into_iter().map(move |ms| Arrival { frame: *f, rx, ms }))).collect();
         let len = 4;
         let total = alphabet.len().pow(len as u32);
         let fails: Mutex<Vec<Failure>> = Mutex::new(vec![]);
@@ -310,6 +348,7 @@ pub fn run(ctx: &Ctx) {
     });
     let h = vec![Arrival { frame: 0, rx: 0, ms: 1000 }, Arrival { frame: 0, rx: 1, ms: 1001 }, Arrival { frame: 3, rx: 0, ms: 1001 }, Arrival { frame: 1, rx: 2, ms: 1500 }];
     ctx.sample(json!({"window": 400, "history": h.iter().map(|a| json!({"frame": hex::encode(&frames[a.frame as usize]), "receiver": a.rx, "ms": a.ms})).collect::<Vec<_>>(), "emitted": run_real(&h, 400, &frames, (0, 0)).map(|r| r.iter().map(|x| json!({"receptions": x.receptions, "ts": x.ts})).collect::<Vec<_>>()).ok()}));
+    scale_strata(ctx);
     cli_differential(ctx);
     // the deduplicator as the application wires it: two TCP sources into the real binary
     match crate::e2e::Env::from_env() {
@@ -342,6 +381,149 @@ pub fn run(ctx: &Ctx) {
             std::process::exit(2);
         }
     }
+}
+
+
+// ------------------------------------------------------------------------------------------------
+// Scale strata: the property quantifies over *all* finite histories, any number of receivers. Counters, bounded
+// tables and fixed-size buffers only show beyond a few hundred groups / receptions / receivers, which the short
+// histories above never reach.
+
+/// n distinct identification squitters of n aircraft; every 53rd has a corrupted parity field and never decodes
+pub fn scale_pool(n: usize) -> Vec<Vec<u8>> {
+    (0..n as u32)
+        .map(|k| {
+            let mut f = enc::df17(5, 0x100000 + k * 7, &enc::me_ident(4, 0, &[1 + (k % 26) as u8, 1 + (k / 26 % 26) as u8, 1 + (k / 676 % 26) as u8, 48 + (k % 10) as u8, 32, 32, 32, 32]));
+            if k % 53 == 52 {
+                f[13] ^= 0x55;
+            }
+            f
+        })
+        .collect()
+}
+
+/// shape of a generated long history: (distinct frames, receivers, arrivals, gaps between arrivals in ms to draw from, window)
+#[derive(Clone, Debug)]
+pub struct ScaleCfg {
+    pub frames: u16,
+    pub receivers: u16,
+    pub arrivals: u32,
+    pub gaps: Vec<u64>,
+    pub window: u32,
+    /// every n-th arrival is delivered one position early (locally unordered input); 0 = arrivals never decrease
+    pub swap_every: u32,
+}
+
+pub fn scale_history(c: &ScaleCfg, salt: u64) -> Vec<Arrival> {
+    let mut r = vcore::ev::SplitMix::new(salt);
+    let mut t = 50_000u64;
+    let mut h: Vec<Arrival> = (0..c.arrivals)
+        .map(|_| {
+            t += c.gaps[r.below(c.gaps.len() as u64) as usize];
+            Arrival { frame: r.below(c.frames as u64) as u16, rx: r.below(c.receivers as u64) as u16, ms: t }
+        })
+        .collect();
+    if c.swap_every > 0 {
+        let mut i = c.swap_every as usize;
+        while i < h.len() {
+            h.swap(i - 1, i);
+            i += c.swap_every as usize;
+        }
+    }
+    h
+}
+
+fn scale_cfg_json(c: &ScaleCfg, salt: u64, prefix: usize) -> Value {
+    json!({"kind": "dedup-scale", "frames": c.frames, "receivers": c.receivers, "arrivals": c.arrivals, "gaps": c.gaps, "window": c.window, "swap_every": c.swap_every, "salt": salt.to_string(), "prefix": prefix})
+}
+
+/// One generated long history; a failure is reduced to its shortest failing prefix (binary search, then confirmed).
+fn scale_case(ctx: &Ctx, c: &ScaleCfg, salt: u64, prefix: Option<usize>, pool: &[Vec<u8>], decodable: &[bool]) -> Check {
+    let full = scale_history(c, salt);
+    let h = &full[..prefix.unwrap_or(full.len()).min(full.len())];
+    match check_hist_caps(ctx, h, c.window, &pool[..c.frames as usize], &decodable[..c.frames as usize], (0, 0)) {
+        Ok(()) => {
+            ctx.class("long history (300 .. 600 000 arrivals) through deduplicate_messages");
+            Ok(())
+        }
+        Err(first) => {
+            let was = ctx.is_counting();
+            ctx.set_counting(false);
+            let fails = |n: usize| check_hist_caps(ctx, &h[..n], c.window, &pool[..c.frames as usize], &decodable[..c.frames as usize], (0, 0)).is_err();
+            let (mut lo, mut hi) = (0usize, h.len());
+            while lo + 1 < hi {
+                let mid = (lo + hi) / 2;
+                if fails(mid) {
+                    hi = mid;
+                } else {
+                    lo = mid;
+                }
+            }
+            let n = if fails(hi) { hi } else { h.len() };
+            ctx.set_counting(was);
+            let e = check_hist_caps(ctx, &h[..n], c.window, &pool[..c.frames as usize], &decodable[..c.frames as usize], (0, 0)).err().unwrap_or(first);
+            Err(Failure::new(e.signature.clone(), format!("(history of {n} arrivals, generated: see the replay file) {}", e.detail.chars().take(600).collect::<String>()), scale_cfg_json(c, salt, n)))
+        }
+    }
+}
+
+pub fn scale_cfgs(thorough: bool) -> Vec<ScaleCfg> {
+    let mut v = vec![
+        // > 256 groups open at once
+        ScaleCfg { frames: 1400, receivers: 3, arrivals: 3000, gaps: vec![0, 0, 1], window: 450, swap_every: 0 },
+        // > 1024 and > 4096 groups open at once
+        ScaleCfg { frames: 9000, receivers: 3, arrivals: 6000, gaps: vec![0, 0, 0, 1], window: 450, swap_every: 0 },
+        ScaleCfg { frames: 9000, receivers: 2, arrivals: 30_000, gaps: vec![0, 1], window: 70_000, swap_every: 0 },
+        // > 256 receptions of one group, > 256 receivers
+        ScaleCfg { frames: 2, receivers: 700, arrivals: 2500, gaps: vec![0, 0, 0, 1], window: 400, swap_every: 0 },
+        // one frame coming back > 256 times, other frames in between
+        ScaleCfg { frames: 3, receivers: 2, arrivals: 4000, gaps: vec![150, 300, 460], window: 400, swap_every: 0 },
+        // > 65 536 arrivals, records and distinct frames over time; a few open at once
+        ScaleCfg { frames: 9000, receivers: 5, arrivals: 140_000, gaps: vec![0, 1, 2, 7], window: 5, swap_every: 0 },
+        ScaleCfg { frames: 40, receivers: 300, arrivals: 70_000, gaps: vec![0, 1, 3, 20, 90], window: 60, swap_every: 0 },
+        // the same with locally unordered arrivals
+        ScaleCfg { frames: 600, receivers: 40, arrivals: 20_000, gaps: vec![0, 1, 2, 30], window: 100, swap_every: 7 },
+        ScaleCfg { frames: 5, receivers: 300, arrivals: 3000, gaps: vec![0, 1, 200], window: 400, swap_every: 3 },
+    ];
+    if thorough {
+        v.push(ScaleCfg { frames: 9000, receivers: 1000, arrivals: 600_000, gaps: vec![0, 1, 2], window: 450, swap_every: 0 });
+        v.push(ScaleCfg { frames: 1, receivers: 2, arrivals: 200_000, gaps: vec![1, 2, 3], window: 2, swap_every: 0 });
+        v.push(ScaleCfg { frames: 300, receivers: 70_000u32.min(65_535) as u16, arrivals: 150_000, gaps: vec![0, 1], window: 450, swap_every: 11 });
+    }
+    v
+}
+
+fn scale_strata(ctx: &Ctx) {
+    let pool = scale_pool(9000);
+    let decodable: Vec<bool> = pool.iter().map(|f| Message::try_from(f.as_slice()).is_ok()).collect();
+    assert_eq!(decodable.iter().filter(|d| !**d).count(), 9000 / 53, "scale pool decodability");
+    let thorough = ctx.tier.pick(false, true);
+    let reps = ctx.tier.pick(2u64, 6u64);
+    let jobs: Vec<(ScaleCfg, u64)> = scale_cfgs(thorough).into_iter().flat_map(|c| (0..reps).map(move |k| (c.clone(), k))).collect();
+    let fails: Vec<Failure> = jobs.par_iter().filter_map(|(c, k)| scale_case(ctx, c, ctx.sub("scale") ^ (*k * 0x9e37), None, &pool, &decodable).err()).collect();
+    let mut seen = std::collections::BTreeSet::new();
+    for e in fails {
+        if seen.insert(e.signature.clone()) {
+            ctx.judge(Err(e));
+        }
+    }
+    // shrinkable mid-size histories: proptest chooses the shape
+    let n = ctx.tier.pick(96u32, 1200u32);
+    (0..16u32).into_par_iter().for_each(|s| {
+        let shape = (
+            prop_oneof![Just(2u16), Just(40), Just(300), Just(1400), Just(9000)],
+            prop_oneof![Just(1u16), Just(3), Just(260), Just(700)],
+            300u32..2500,
+            proptest::sample::select(vec![vec![0u64, 0, 1], vec![0, 1, 17], vec![1, 150, 460], vec![0, 0, 0, 1, 500]]),
+            proptest::sample::select(vec![0u32, 5, 400, 450, 70_000]),
+            proptest::sample::select(vec![0u32, 0, 5]),
+            any::<u64>(),
+        );
+        run_prop(ctx, &format!("scale-{s}"), n / 16, shape, |(f, r, a, gaps, w, sw, salt)| {
+            let c = ScaleCfg { frames: *f, receivers: *r, arrivals: *a, gaps: gaps.clone(), window: *w, swap_every: *sw };
+            scale_case(ctx, &c, *salt, None, &pool, &decodable)
+        });
+    });
 }
 
 /// 14 decodable frames (12 distinct DF17 identifications + DF4 + DF11) and one undecodable, for the CLI runs
@@ -387,7 +569,7 @@ fn cli_case(ctx: &Ctx, bin: &str, h: &[Arrival], w: u32, frames: &[Vec<u8>]) -> 
         .collect();
     // model + the still-open groups, which end of input flushes
     let (mut want, pending) = model(h, w, frames, &decodable);
-    let mut groups: std::collections::BTreeMap<u8, Vec<u64>> = Default::default();
+    let mut groups: std::collections::BTreeMap<u16, Vec<u64>> = Default::default();
     for p in pending {
         groups.entry(h[p as usize].frame).or_default().push(p);
     }
@@ -417,7 +599,7 @@ fn cli_differential(ctx: &Ctx) {
         std::process::exit(2);
     };
     let frames = cli_pool();
-    let nf = frames.len() as u8;
+    let nf = frames.len() as u16;
     let n = ctx.tier.pick(96u32, 1600u32);
     let shards = 16u32;
     (0..shards).into_par_iter().for_each(|s| {
@@ -431,6 +613,57 @@ fn cli_differential(ctx: &Ctx) {
             cli_case(ctx, &bin, h, *w, &frames)
         });
     });
+    cli_scale(ctx, &bin);
+}
+
+/// long histories through decode1090's own copy of the loop (file mode)
+fn cli_scale(ctx: &Ctx, bin: &str) {
+    let pool = scale_pool(9000);
+    let cfgs = vec![
+        ScaleCfg { frames: 1400, receivers: 3, arrivals: 3000, gaps: vec![0, 0, 1], window: 450, swap_every: 0 },
+        ScaleCfg { frames: 9000, receivers: 3, arrivals: 6000, gaps: vec![0, 0, 0, 1], window: 450, swap_every: 0 },
+        ScaleCfg { frames: 2, receivers: 700, arrivals: 2500, gaps: vec![0, 0, 0, 1], window: 400, swap_every: 0 },
+        ScaleCfg { frames: 3, receivers: 2, arrivals: 4000, gaps: vec![150, 300, 460], window: 400, swap_every: 0 },
+        ScaleCfg { frames: 9000, receivers: 5, arrivals: 70_000, gaps: vec![0, 1, 2, 7], window: 5, swap_every: 0 },
+        ScaleCfg { frames: 600, receivers: 40, arrivals: 20_000, gaps: vec![0, 1, 2, 30], window: 100, swap_every: 7 },
+        ScaleCfg { frames: 40, receivers: 300, arrivals: 30_000, gaps: vec![0, 1, 3, 20, 90], window: 60, swap_every: 0 },
+    ];
+    let reps = ctx.tier.pick(1u64, 4u64);
+    let jobs: Vec<(ScaleCfg, u64)> = cfgs.into_iter().flat_map(|c| (0..reps).map(move |k| (c.clone(), k))).collect();
+    let fails: Vec<Failure> = jobs
+        .par_iter()
+        .filter_map(|(c, k)| {
+            let salt = ctx.sub("cli-scale") ^ (*k * 0x9e37);
+            let h = scale_history(c, salt);
+            ctx.class("decode1090 run, long history");
+            let r = cli_case(ctx, bin, &h, c.window, &pool[..c.frames as usize]);
+            let Err(first) = r else { return None };
+            // shortest failing prefix
+            let was = ctx.is_counting();
+            ctx.set_counting(false);
+            let fails = |n: usize| cli_case(ctx, bin, &h[..n], c.window, &pool[..c.frames as usize]).is_err();
+            let (mut lo, mut hi) = (0usize, h.len());
+            while lo + 1 < hi {
+                let mid = (lo + hi) / 2;
+                if fails(mid) {
+                    hi = mid;
+                } else {
+                    lo = mid;
+                }
+            }
+            let n = if fails(hi) { hi } else { h.len() };
+            ctx.set_counting(was);
+            let mut rep = scale_cfg_json(c, salt, n);
+            rep["via"] = json!("decode1090");
+            Some(Failure::new(first.signature.clone(), format!("(history of {n} arrivals, generated: see the replay file) {}", first.detail.chars().take(600).collect::<String>()), rep))
+        })
+        .collect();
+    let mut seen = std::collections::BTreeSet::new();
+    for e in fails {
+        if seen.insert(e.signature.clone()) {
+            ctx.judge(Err(e));
+        }
+    }
 }
 
 fn sorted(mut v: Vec<Arrival>) -> Vec<Arrival> {
@@ -606,9 +839,32 @@ pub fn replay(ctx: &Ctx, v: &Value) {
         ctx.judge(replay_long(ctx, &env, &crate::e2e::scenario_of(&v["scenario"]), v, "c10-replay"));
         return;
     }
+    if v["kind"] == "dedup-scale" {
+        let pool = scale_pool(9000);
+        let decodable: Vec<bool> = pool.iter().map(|f| Message::try_from(f.as_slice()).is_ok()).collect();
+        let c = ScaleCfg { frames: v["frames"].as_u64().unwrap_or(1) as u16, receivers: v["receivers"].as_u64().unwrap_or(1) as u16, arrivals: v["arrivals"].as_u64().unwrap_or(0) as u32, gaps: v["gaps"].as_array().map(|a| a.iter().map(|x| x.as_u64().unwrap_or(0)).collect()).unwrap_or_else(|| vec![1]), window: v["window"].as_u64().unwrap_or(450) as u32, swap_every: v["swap_every"].as_u64().unwrap_or(0) as u32 };
+        let salt = v["salt"].as_str().and_then(|s| s.parse::<u64>().ok()).unwrap_or(0);
+        let prefix = v["prefix"].as_u64().map(|p| p as usize);
+        if v["via"] == "decode1090" {
+            match std::env::var("DECODE1090_BIN") {
+                Ok(bin) => {
+                    let full = scale_history(&c, salt);
+                    let h = &full[..prefix.unwrap_or(full.len()).min(full.len())];
+                    ctx.judge(cli_case(ctx, &bin, h, c.window, &pool[..c.frames as usize]).map_err(|e| Failure::new(e.signature, e.detail.chars().take(800).collect::<String>(), v.clone())));
+                }
+                Err(_) => {
+                    eprintln!("INCONCLUSIVE: DECODE1090_BIN is not set (replay through ./check)");
+                    std::process::exit(2);
+                }
+            }
+            return;
+        }
+        ctx.judge(scale_case(ctx, &c, salt, prefix, &pool, &decodable));
+        return;
+    }
     let frames = pool();
     let decodable: Vec<bool> = frames.iter().map(|f| Message::try_from(f.as_slice()).is_ok()).collect();
-    let hist: Vec<Arrival> = v["history"].as_array().map(|a| a.iter().map(|x| Arrival { frame: x[0].as_u64().unwrap_or(0) as u8, rx: x[1].as_u64().unwrap_or(0) as u8, ms: x[2].as_u64().unwrap_or(0) }).collect()).unwrap_or_default();
+    let hist: Vec<Arrival> = v["history"].as_array().map(|a| a.iter().map(|x| Arrival { frame: x[0].as_u64().unwrap_or(0) as u16, rx: x[1].as_u64().unwrap_or(0) as u16, ms: x[2].as_u64().unwrap_or(0) }).collect()).unwrap_or_default();
     let w = v["window"].as_u64().unwrap_or(450) as u32;
     if v["via"] == "decode1090" {
         match std::env::var("DECODE1090_BIN") {
